@@ -921,7 +921,9 @@ def convert_batched_fc_shape(op: Operation, arch, nng) -> Operation:
             weight_tensor.values = np.expand_dims(np.expand_dims(weight_tensor.values, axis=0), axis=0)
             weight_tensor.set_all_shapes(list(weight_tensor.values.shape))
 
-            n = op.ofm_shapes[0].batch
+            # all rows of the result: with keep_num_dims the result keeps the rank of the IFM, so the rows are not only in the
+            # first dimension of its 4D shape
+            n = op.ofm_shapes[0].elements() // op.ofm_shapes[0].depth
             h, w = batching_split.get(n, (1, n))
             op.ofm_shapes[0] = Shape4D([1, h, w, op.ofm_shapes[0].depth])
     return op
